@@ -161,6 +161,23 @@ fn generate_model(rng: &mut Rng) -> (String, Vec<Invocable>) {
     rules2
   ));
   inv.push(Invocable { name: "Tbl2".into(), kind: "table", locks: dec_locks.clone() });
+  // a table whose default output entry and allowed output values are expressions over the call's input
+  // (they are evaluated per call; a value kept from one call would show in the next)
+  x.push_str(&format!(
+    "<decision name=\"Tbl3\" id=\"_Tbl3\"><variable name=\"Tbl3\"/><informationRequirement><requiredInput href=\"#_n\"/></informationRequirement><decisionTable hitPolicy=\"FIRST\" outputLabel=\"Tbl3\"><input id=\"_k1\" label=\"n\"><inputExpression typeRef=\"number\"><text>n</text></inputExpression></input><output id=\"_q1\" name=\"Tbl3\"><outputValues><text>n, n * 2, n + {a}, -1</text></outputValues><defaultOutputEntry><text>n * 2</text></defaultOutputEntry></output><rule id=\"_t0\"><inputEntry><text>&lt; {t}</text></inputEntry><outputEntry><text>n + {a}</text></outputEntry></rule><rule id=\"_t1\"><inputEntry><text>&gt; {u}</text></inputEntry><outputEntry><text>-1</text></outputEntry></rule></decisionTable></decision>\n",
+    a = 1 + rng.below(9),
+    t = 5 + rng.below(10),
+    u = 60 + rng.below(30)
+  ));
+  inv.push(Invocable { name: "Tbl3".into(), kind: "table", locks: dec_locks.clone() });
+  // deep recursion through a function bound in a context: every call nests its own invocations only
+  x.push_str(&decision(
+    "Rec1",
+    "number",
+    &[("input", "_n")],
+    &format!("{{f: function(k) if k <= 0 then 0 else 1 + f(k - 1), r: f({} + floor(abs(n)))}}.r", 40 + rng.below(40)),
+  ));
+  inv.push(Invocable { name: "Rec1".into(), kind: "recursive", locks: dec_locks.clone() });
   // knowledge model and a chain of required decisions (nested read acquisitions)
   x.push_str(&format!(
     "<businessKnowledgeModel name=\"Bkm1\" id=\"_Bkm1\"><variable name=\"Bkm1\"/><encapsulatedLogic><formalParameter name=\"p\" typeRef=\"number\"/><formalParameter name=\"q\" typeRef=\"number\"/><literalExpression><text>{}</text></literalExpression></encapsulatedLogic></businessKnowledgeModel>\n",
@@ -303,7 +320,16 @@ pub fn run(cfg: &Cfg) -> Report {
         Err(_) => continue,
       };
       let name = invocables[invocable].name.clone();
-      let first = guarded(|| canon(&me.evaluate_invocable(&name, &input)));
+      // "the same value as that call made alone": the first expectation comes from an evaluator of its own,
+      // built for this call only (except for the hook's panicking decision, which exists on `me` alone)
+      let first = if name == "Boom" {
+        guarded(|| canon(&me.evaluate_invocable(&name, &input)))
+      } else {
+        guarded(|| match dmntk_model::parse(&xml).ok().and_then(|d| ModelEvaluator::new(&d).ok()) {
+          Some(fresh) => canon(&fresh.evaluate_invocable(&name, &input)),
+          None => "no-evaluator".to_string(),
+        })
+      };
       let second = guarded(|| canon(&me.evaluate_invocable(&name, &input)));
       let expected = match (first, second) {
         (Ok(a), Ok(b)) if a == b => a,
@@ -312,7 +338,7 @@ pub fn run(cfg: &Cfg) -> Report {
           rep.disagree(
             Kind::ImplVsSpec,
             "sequential",
-            "two sequential evaluations of the same call differ",
+            "an evaluation on the shared evaluator differs from the same call made alone on an evaluator of its own",
             &format!("{} {}", name, input_text),
             &format!("{:?}", a),
             &format!("{:?}", b),
